@@ -139,6 +139,23 @@ func storeOracle(w *World) string {
 			}
 			if !bytes.Equal(dn.Encode(), enc) {
 				fail = fmt.Sprintf("%s: node %x re-encodes to %q, was %q", level, []byte(key), dn.Encode(), enc)
+				return nil
+			}
+			// the same node after a version sweep (version != origin, as pruning passes stamp it): the
+			// hash covers the origin only, the encoding carries both
+			for _, dv := range []util.Sequence{1, 7, -3} {
+				sw := node.CloneNode()
+				sw.SetVersion(node.GetOrigin() + dv)
+				if !bytes.Equal(sw.GetHashBytes(), key) {
+					fail = fmt.Sprintf("%s: node %x changes its hash when only its version is set to %d", level, []byte(key), sw.GetVersion())
+					return nil
+				}
+				e2 := sw.Encode()
+				d2, err := util.CreateNode(bytes.NewReader(e2))
+				if err != nil || !bytes.Equal(d2.GetHashBytes(), key) || !bytes.Equal(d2.Encode(), e2) || d2.GetVersion() != sw.GetVersion() || d2.GetOrigin() != sw.GetOrigin() {
+					fail = fmt.Sprintf("%s: node %x with origin %d / version %d does not round-trip: decoded origin %d version %d hash %x (err %v)", level, []byte(key), sw.GetOrigin(), sw.GetVersion(), d2.GetOrigin(), d2.GetVersion(), d2.GetHashBytes(), err)
+					return nil
+				}
 			}
 			return nil
 		}
